@@ -778,6 +778,12 @@ class ConditionBinaryOp(ConditionLike):
         return null_condition_binary_check(*conditions) or super().__new__(cls)
 
     def __init__(self, *conditions):
+        if null_condition_binary_check(*conditions) is not None:
+            # `__new__` returned the non-null operand instead of a new object; if that
+            # operand is an instance of this class, Python calls `__init__` on it
+            # again, which must not re-bind its children.
+            return
+
         super().__init__()
 
         self.children = conditions
